@@ -52,34 +52,78 @@ T3 = {
 }
 
 
+T4 = {
+ "C01-G": ("A", "disguised fast path multiplies with wrapping_mul (the edit of C05-F, found independently for the decimal property)", "f64; few digits, decimal exponent 23..=37, digits * 10^(exp-22) >= 2^64 wrapping to <= 2^53: `562949953421312e37` -> 0.0", ["C01"], ""),
+ "C01-H": ("B", "slow::parse_mantissa drops the fraction's sticky digit once the integer digits alone fill max_digits", "770+ (f64) / 115+ (f32) integer digits that are an exact tie followed by zeros, a non-zero fraction digit and a large negative exponent", ["C01"], ""),
+ "C02-G": ("A", "Grisu round_digit guard `delta - rem >= kappa` -> `rem < delta`", "feature compact; 45 of the 2046 f64 powers of two (3 f32): the output reads back as the float below", ["C02"], ""),
+ "C02-H": ("B", "jeaiii nine-digit arm: multiplier 1441151882 -> 1441151881", "non-compact; a nine-digit group in [100000015, 138951963] (14% of the band): f32 output not closest, f64 with a nine-digit shortest form does not round-trip, integers off by one", ["C02"], ""),
+ "C03-G": ("A", "digit_count @naive: the 4-digit fast path also for 16-bit types (radix^4 truncates)", "feature radix without compact; u16/i16; radix 17..=36 except 32; magnitude >= radix^4 mod 65536: returned slice 1-2 bytes too long", ["C03"], ""),
+ "C03-H": ("B", "api::unsigned: the '+' of required_mantissa_sign is not counted in the returned length", "feature format; required_mantissa_sign; unsigned types: 123u32 -> `+12`", ["C03"], ""),
+ "C04-G": ("A", "parse_1digit_checked!: the multiply step reports Overflow also for negative numbers", "a signed type and a '-' input so far below MIN that the multiplication overflows (`-130` for i8; `-129` is still right): Overflow(i) instead of Underflow(i)", ["C04"], ""),
+ "C04-H": ("B", "parse_digits_unchecked!: the first 8-digit block is added even when the number is negative", "no_multi_digit(false); i64/isize/i128; '-' followed by at least 8 digits: `-12345678` -> 12345678", ["C04"], ""),
+ "C05-G": ("A", "Bellerophon: the two underflow checks folded into one early return", "feature radix, non-power-of-two radix; a value within about 2^-60 (relative) above half the smallest subnormal: +0.0 instead of the smallest subnormal", ["C05"], ""),
+ "C05-H": ("B", "compact int_pow_fast_path takes the power in 32 bits (the edit of C16-E, found independently for the radix property)", "features compact + radix; radix^n >= 2^32 in the disguised fast path or the slow path", ["C05"], ""),
+ "C06-G": ("A", "binary write_float_scientific: the '0' of `D.0` is not stored", "power-of-two radices, same base, exponent notation, a one-digit mantissa (the smallest subnormals): the third byte is whatever the buffer held", ["C06"], ""),
+ "C06-H": ("B", "hex write_float: scientific exponent computed from MANTISSA_SIZE instead of the actual bit count", "mixed-base formats (16/2, 8/2, 32/2, 4/2, 16/4); subnormals: exponent up to 52 (f64) / 23 (f32) binary orders too large", ["C06"], ""),
+ "C07-G": ("A", "generic-radix write_float_scientific pads to min_significant_digits after trim_floats removed the point", "feature radix; trim_floats with min_significant_digits >= 2; exponent notation; a value with one significant digit: 3^20 -> `10000e202`", ["C07", "C14"], "missed by C07 at first (C14 reported it): the option sweep of C07 had no min_significant_digits; C06/C07 cases now carry an optional min_significant_digits under which every clause is judged (padding never changes the value)"),
+ "C07-H": ("B", "generic-radix truncate_and_round: the second `max_digits >= digit_count` return removed (max_digits is shadowed to include leading zeros)", "feature radix; max_significant_digits M with S < M < S + z for a value below 1/radix written positionally (S significant digits, z leading zeros): NUL bytes in the output", ["C07", "C14"], ""),
+ "C08-G": ("A", "the same edit as C02-H (jeaiii nine-digit multiplier), found independently by the C08 author", "see C02-H: u32 100000015 -> `100000014`, f64 1.00000015 -> `1.00000014`", ["C08"], ""),
+ "C08-H": ("B", "write_float writes the required '+' only for sign-positive values", "feature format; required_mantissa_sign; a NaN with the sign bit set is written without any sign and the parser answers MissingSign", ["C08"], ""),
+ "C09-G": ("A", "the same edit as C03-E (usize decimal through the 19-digit signed writer), found independently by the C09 author", "usize >= 10^19: panic with any buffer", ["C09"], ""),
+ "C09-H": ("B", "copy_to_dst: debug_assert + ptr::copy_nonoverlapping instead of the checked slice copy", "feature compact; any integer type; a buffer shorter than the digits; no debug assertions: the digits are written behind the caller's slice before the panic", ["C09"], ""),
+ "C10-G": ("A", "BIGFLOAT_BITS 1200 -> 1075 + 64 (one limb fewer)", "feature radix; odd mantissa radix; f64 below about 2^-1000; long digits at a midpoint: `shl_limbs(..).unwrap()` panics", ["C10"], ""),
+ "C10-H": ("B", "parse_number: the fraction slice length is measured from the start of the number", "feature format; a format whose fraction accepts digit separators; floats with a '.': debug assertion, in release the slow paths read the bytes behind the input", ["C10"], ""),
+ "C11-G": ("A", "FractionDigitsIterator judges the neighbours of a separator in the exponent radix", "format + power-of-two; mantissa radix != exponent radix; fraction separators: partial `1.7_9` (octal mantissa, decimal exponent) consumes the separator", ["C11"], "run after the catalogue had gained separator formats with mantissa radix below exponent radix (section 21.4); the round-3 formats SEP_R16B2E10_ALL_* (hex mantissa, decimal exponent) reach the same code with the opposite inequality"),
+ "C11-H": ("B", "parse_partial: the early return for an input that is empty after the sign tests REQUIRED_DIGITS", "feature format; a float format with optional mantissa digits; `\"\"`, `+`, `-`: complete Ok(-0.0), partial Err(Empty)", ["C11"], ""),
+ "C12-G": ("A", "shared::starts_with advances the input iterator once more when the special string ends first", "feature format; case_sensitive_special; a special string in exact case followed by exactly one byte: `infx` -> inf", ["C12"], ""),
+ "C13-G": ("A", "is_it! @internal: a separator with no byte after it is no longer skipped", "feature format; a component with exactly internal+trailing separators: a trailing separator that ends the input is rejected; component-final separators are taken for digits in the slow path", ["C13"], ""),
+ "C13-H": ("B", "the same edit as C11-G, found independently by the C13 author", "see C11-G: hex float `1.8_ap3` rejected under internal fraction separators", ["C13"], "as C11-G"),
+ "C14-G": ("A", "hex write_float: the zero special case of the scientific exponent removed", "power-of-two; mixed-base formats; the value +-0.0 is written as `0.0p-1076`", ["C14"], "missed at first: C14 generated no zeros and returned early for them; zero is now generated and judged (denotes zero, sign, exponent notation exactly when the format requires it - sound also under the reading that breaks are ignored for mixed bases)"),
+ "C14-H": ("B", "generic-radix truncate_and_round: the Truncate early return moved above the leading-zero adjustment", "feature radix; Truncate; max_significant_digits; a magnitude below 1 written positionally: radix 12 0.375 at 2 digits -> `0.4`", ["C14"], ""),
+ "C15-G": ("A", "no_special is only checked by the complete parser", "feature format; no_special; parse_partial on `-inf`, `NaN`", ["C15"], ""),
+ "C15-H": ("B", "Float::is_nan requires the quiet bit", "writing a signalling NaN: `inf` / `-inf` instead of `NaN`", ["C15"], ""),
+ "C16-G": ("A", "float buffer_size_const uses FORMATTED_SIZE for every radix", "power-of-two or radix builds: `write(1.5f64, &mut [0u8; 64])` panics (FORMATTED_SIZE is 256 there)", ["C16"], ""),
+ "C16-H": ("B", "get_large_int_power pairs LARGE_POW5 with the step of LARGE_POW3", "feature radix without compact; f64; the big-integer slow path with a decimal scale of at least 200", ["C16"], ""),
+ "C17-G": ("A", "i128::FORMATTED_SIZE_DECIMAL 40 -> 39", "negative i128 through lexical::to_string (or an exactly sized core buffer): panic", ["C17"], "missed at first by C17 (C03 and C09 write into exactly sized buffers and report it): the reference call of the default-API comparison used the same constant, so both sides panicked alike; it now writes into a generous buffer and a panic of the default API on either side is a difference"),
+ "C17-H": ("B", "float buffer_size_const: max!(min_exp, max_exp).unsigned_abs()", "f64; negative_exponent_break <= -44 with a smaller positive break; values between 10^break and about 1e-43: the facade allocates 64 bytes and the writer panics", ["C17"], ""),
+ "C18-G": ("A", "not_feature_format::format_error_impl masks the flags with INTERFACE_FLAG_MASK", "builds without feature format: a packed format with one of nine non-interface flag bits is reported valid and parsed with", ["C18"], ""),
+ "C18-H": ("B", "parse-float OptionsBuilder::build checks the length of inf_string where infinity_string is meant", "an infinity_string of 51+ letters: build() is Ok / build_strict() returns while is_valid() is false", ["C18"], ""),
+ "C19-G": ("A", "lossy moderate_path short-circuits with the decimal exponent limits", "lossy; radix 2-9 or exponent base 2/4; exponent beyond the decimal limits in radix units: radix 2 `1e-10000110010` -> 0.0", ["C19"], ""),
+ "C19-H": ("B", "calculate_power2 scales by the mantissa radix instead of the exponent base", "mixed-base formats; inputs that miss the fast path (14+ hex digits, large exponents); lossy and exact alike", ["C19"], ""),
+}
+
+ROUNDS = [(T3, "/tmp/mut", 3), (T4, "/tmp/mut4", 4)]
+
+
 def main():
-    for key, (letter, change, needs, caught, note) in T3.items():
-        pid = key.split("-")[0]
-        wt = os.path.join(MUT, pid)
-        dst = os.path.join(SEEDED, key)
-        if os.path.isdir(wt) and os.path.exists(os.path.join(wt, f"mutant{letter}.diff")):
-            os.makedirs(dst, exist_ok=True)
-            shutil.copy(os.path.join(wt, f"mutant{letter}.diff"), os.path.join(dst, "patch.diff"))
-            if os.path.exists(os.path.join(wt, f"mutant{letter}.md")):
-                shutil.copy(os.path.join(wt, f"mutant{letter}.md"), os.path.join(dst, "description.md"))
-            d2 = os.path.join(dst, "demonstration")
-            if os.path.exists(d2):
-                shutil.rmtree(d2)
-            shutil.copytree(os.path.join(wt, f"demo{letter}"), d2, ignore=shutil.ignore_patterns("target", "Cargo.lock"))
-        if not os.path.isdir(dst):
-            print("missing", key)
-            continue
-        meta = {
-            "property": pid,
-            "change": change,
-            "needs_to_manifest": needs,
-            "what_was_run": "tools/try_mutant.py verify in the scratch worktree: the patch applies to the repository, the workspace builds, the pinned suite (cargo test --workspace --no-fail-fast --offline) passes with it (394 passed, 0 failed), the demonstration exits non-zero with the patch and zero without; tools/par_mutants.py (a private copy of /repo with the patch applied, bind-mounted over /repo in a mount namespace) or tools/try_mutant.py check (git -C /repo apply, restore with git -C /repo checkout -- .): `python3 run.py check <ID> --tier quick` for the listed checks",
-            "round": 3,
-            "caught_by_quick_checks": caught,
-            "strengthening": note,
-            "note": "demonstration/Cargo.toml refers to the library crates by relative path (../lexical-core ...): copy it into a checkout of the repository to run it",
-        }
-        json.dump(meta, open(os.path.join(dst, "meta.json"), "w"), indent=1)
+    for table, mut_dir, rnd in ROUNDS:
+        for key, (letter, change, needs, caught, note) in table.items():
+            pid = key.split("-")[0]
+            wt = os.path.join(mut_dir, pid)
+            dst = os.path.join(SEEDED, key)
+            if os.path.isdir(wt) and os.path.exists(os.path.join(wt, f"mutant{letter}.diff")):
+                os.makedirs(dst, exist_ok=True)
+                shutil.copy(os.path.join(wt, f"mutant{letter}.diff"), os.path.join(dst, "patch.diff"))
+                if os.path.exists(os.path.join(wt, f"mutant{letter}.md")):
+                    shutil.copy(os.path.join(wt, f"mutant{letter}.md"), os.path.join(dst, "description.md"))
+                d2 = os.path.join(dst, "demonstration")
+                if os.path.exists(d2):
+                    shutil.rmtree(d2)
+                shutil.copytree(os.path.join(wt, f"demo{letter}"), d2, ignore=shutil.ignore_patterns("target", "Cargo.lock"))
+            if not os.path.isdir(dst):
+                print("missing", key)
+                continue
+            meta = {
+                "property": pid,
+                "change": change,
+                "needs_to_manifest": needs,
+                "what_was_run": "tools/try_mutant.py verify in the scratch worktree: the patch applies to the repository, the workspace builds, the pinned suite (cargo test --workspace --no-fail-fast --offline) passes with it (394 passed, 0 failed), the demonstration exits non-zero with the patch and zero without; tools/par_mutants.py (a private copy of /repo with the patch applied, bind-mounted over /repo in a mount namespace) or tools/try_mutant.py check (git -C /repo apply, restore with git -C /repo checkout -- .): `python3 run.py check <ID> --tier quick` for the listed checks",
+                "round": rnd,
+                "caught_by_quick_checks": caught,
+                "strengthening": note,
+                "note": "demonstration/Cargo.toml refers to the library crates by relative path (../lexical-core ...): copy it into a checkout of the repository to run it",
+            }
+            json.dump(meta, open(os.path.join(dst, "meta.json"), "w"), indent=1)
     # INDEX.md from all meta.json
     rows = []
     for key in sorted(os.listdir(SEEDED)):
@@ -93,7 +137,7 @@ def main():
             caught += f" (after strengthening: {st})"
         rows.append(f"| {key} | {m.get('change', '')} | {m.get('needs_to_manifest', '')} | {caught} |")
     with open(os.path.join(SEEDED, "INDEX.md"), "w") as f:
-        f.write("# Seeded changes\n\nEach directory holds `patch.diff` (apply with `git -C /repo apply <file>`, undo with `git -C /repo checkout -- .`), `description.md` (the author's notes), `demonstration/` (a tiny cargo project that fails with the change and passes without) and `meta.json`.\nAll of them compile and pass the pinned test-suite. None is committed to the repository.\n\n| change | what | needs to manifest | quick checks that report it |\n|---|---|---|---|\n")
+        f.write("# Seeded changes\n\nEach directory holds `patch.diff` (apply with `git -C /repo apply <file>`, undo with `git -C /repo checkout -- .`), `description.md` (the author's notes), `demonstration/` (a tiny cargo project that fails with the change and passes without) and `meta.json`.\nAll of them compile and pass the pinned test-suite. None is committed to the repository. (SELF-A / SELF-B are two probes written by the author of the checks, without demonstration.)\n\n| change | what | needs to manifest | quick checks that report it |\n|---|---|---|---|\n")
         f.write("\n".join(rows) + "\n")
     print(len(rows), "changes indexed")
 
